@@ -1101,9 +1101,8 @@ impl Engine {
             n.mtime_missed = acc > 0 && stamps.is_empty();
             n.mtime_ok = stamps;
         } else {
-            // failed before taking a byte: the old or a new value is acceptable
-            let mut s = stamps;
-            n.mtime_ok.append(&mut s);
+            // failed before taking a byte: that was no write, the time stays what it was
+            let _ = stamps;
         }
         let hfm = self.m.hfiles[fs].as_mut().unwrap();
         hfm.off = new_off;
